@@ -1,4 +1,5 @@
 PROP = dict(
+    rerun_mismatch=True,  # a mismatching model case is generated and evaluated again (and a third time with relaxed wall-clock bounds) before it is reported
     gen=["layouts"],
     proof_files=["Properties/C15.v", "Proofs/ConnBase.v", "Proofs/ConnC14.v", "Proofs/ConnC16.v", "Proofs/ConnC05.v", "Proofs/ConnC15.v"],
     model_files=["Model/ConnLTS.v", "Model/ConnRun.v"],
